@@ -128,20 +128,27 @@ var (
 
 func loadFindings() {
 	openFindings = map[string]finding{}
-	b, err := os.ReadFile(filepath.Join(Root(), "known_findings.json"))
-	if err != nil {
-		return
-	}
-	var doc struct {
-		Findings []finding `json:"findings"`
-	}
-	if err := json.Unmarshal(b, &doc); err != nil {
-		fmt.Fprintf(os.Stderr, "kit: known_findings.json unreadable: %v\n", err)
-		return
-	}
-	for _, f := range doc.Findings {
-		if f.Status == "open" {
-			openFindings[f.Signature] = f
+	files := []string{filepath.Join(Root(), "known_findings.json")}
+	// per-property fragments used while a check is being built; merged into
+	// known_findings.json before a property is claimed
+	frag, _ := filepath.Glob(filepath.Join(Root(), "notes", "findings", "*.json"))
+	files = append(files, frag...)
+	for _, file := range files {
+		b, err := os.ReadFile(file)
+		if err != nil {
+			continue
+		}
+		var doc struct {
+			Findings []finding `json:"findings"`
+		}
+		if err := json.Unmarshal(b, &doc); err != nil {
+			fmt.Fprintf(os.Stderr, "kit: %s unreadable: %v\n", file, err)
+			continue
+		}
+		for _, f := range doc.Findings {
+			if f.Status == "open" {
+				openFindings[f.Signature] = f
+			}
 		}
 	}
 }
